@@ -26,6 +26,9 @@ def C01(ctx):
         ctx.emit_replay("MC_DeweyPairs", "MC_DeweyPairs.deep.cfg", "pairs-deep", timeout=3000)
     ctx.exhaustive = True
     ctx.record_validate("vercmp", q(ctx, 20000, 300000), "Tr_Dewey", "Tr_Dewey.cfg")
+    # the comparison is a function of the two versions, not of what was compared before: related
+    # patterns x names (with case twins) in both evaluation orders on the same compiled patterns
+    ctx.record_validate("patmatrix", q(ctx, 2500, 40000), "Tr_Pattern", "Tr_Pattern.cfg")
 
 
 def C03(ctx):
@@ -240,7 +243,8 @@ def C09(ctx):
                           "Tr_SummaryStream.cfg", workers=1, simulate="num=%d" % q(ctx, 600, 6000), seed=ctx.seed,
                           coverage=False)
     if ctx.quick:
-        ctx.record_validate("stream", 1500, "Tr_SummaryStream", "Tr_SummaryStream.cfg", args=[1500])
+        # (the size budget admits the plan's one record of more than 1 MiB)
+        ctx.record_validate("stream", 1500, "Tr_SummaryStream", "Tr_SummaryStream.cfg", args=[1500], big=(8000000, 9000000))
     else:
         for i in range(8):
             ctx.record_validate("stream", 4000, "Tr_SummaryStream", "Tr_SummaryStream.cfg", name="stream%d" % i,
@@ -345,7 +349,9 @@ def C12(ctx):
     ctx.mc("MC_Verify", "MC_Verify.%s.cfg" % t)
     ctx.emit_run_validate("MC_Verify", "MC_Verify.emit.%s.cfg" % t, "verify-enum", "Tr_Distinfo", "Tr_Distinfo.cfg")
     ctx.exhaustive = True
-    ctx.record_validate("verify", q(ctx, 4000, 50000), "Tr_Distinfo", "Tr_Distinfo.cfg")
+    # (size budget: room for several patch files built around the 64 KiB boundary)
+    ctx.record_validate("verify", q(ctx, 4000, 50000), "Tr_Distinfo", "Tr_Distinfo.cfg",
+                        big=((330000, 1600000) if ctx.quick else None))
 
 
 PROPS.update({"C10": C10, "C11": C11, "C12": C12})
